@@ -19,3 +19,12 @@ CHECKS["C14"] = _c(
     "Trusted: the harness's calendar arithmetic (self-tested at start-up and cross-checked per case against aws-smithy-types; disagreement = inconclusive), its RFC 9110 / RFC 3986 references. Precision: ms for date-time and epoch-seconds, s for http-date. Range strings with spaces / upper-case unit get no verdict.",
     "DESIGN.md 3/C14",
 )
+
+CHECKS["C12"] = _c(
+    "exploration",
+    "runtime monitoring: recording backend behind S3Service::call observes (bucket, key) for raw requests built in both addressing styles; reference predicates for bucket names, reference host resolution",
+    "harness (raw request driver + direct API driver)",
+    "Builds the same logical request in path style and in virtual-hosted style from a generated (bucket, key), drives both through the real service with no / single-domain / multi-domain host parser, and requires the recording backend to see exactly that bucket and key, both styles to agree, keys <= 1024 bytes accepted and longer refused; IP and socket-address hosts must be handled path-style; bucket names are enumerated exhaustively over a reduced alphabet against two predicates; domain constructors and host resolution are checked directly. Held on the executions observed.",
+    "Trusted: the harness's percent-encoder and bucket-name predicates (core rules = length/charset/edge characters; complete rules exclude every documented special form and grey areas such as '.-'). Names between the two rule sets, foreign-domain hosts and port/case variants of the configured domain get no verdict.",
+    "DESIGN.md 3/C12",
+)
